@@ -606,6 +606,57 @@ def b19_fromdict(concepts, d, flags):
     return []
 
 
+# -- C14 (per table part) ----------------------------------------------------------------------------------
+
+def b14(ctx, orc):
+    import concepts
+    fails = []
+    trip = (orc.objects, orc.properties, orc.table)
+    d = ctx.definition()
+    if (tuple(d.objects), tuple(d.properties), [tuple(bool(x) for x in r) for r in d.bools]) != trip:
+        fails.append(f'context.definition() = {d.objects!r} {d.properties!r} {d.bools!r}')
+    c2 = concepts.Context(*d)
+    if not (c2 == ctx) or c2 != ctx:
+        fails.append('Context(*context.definition()) != context')
+    d2 = c2.definition()
+    if not (d2 == d) or d2 != d:
+        fails.append('Context(*definition).definition() != definition')
+    d3 = concepts.Definition(*trip)
+    if not (concepts.Context(*d3).definition() == d3):
+        fails.append('Definition -> Context -> Definition is not the identity')
+    if tuple(ctx.shape) != (orc.n, orc.m) or tuple(d.shape) != (orc.n, orc.m):
+        fails.append(f'shape {ctx.shape!r} / {d.shape!r}')
+    import fractions
+    want = fractions.Fraction(sum(sum(r) for r in orc.table), orc.n * orc.m)
+    if ctx.fill_ratio != want or d.fill_ratio != want:
+        fails.append(f'fill_ratio {ctx.fill_ratio} / {d.fill_ratio}, expected {want}')
+    if ctx.tostring() != d.tostring() or str(d) != ctx.tostring():
+        fails.append('table string differs between context and definition')
+    if ctx.crc32() != d.crc32():
+        fails.append('crc32 differs between context and definition')
+    # equality iff triples equal
+    same = concepts.Context(*trip)
+    if not (same == ctx) or same != ctx or not (ctx == ctx.copy()):
+        fails.append('contexts with equal triples compare unequal')
+    variants = []
+    t2 = [list(r) for r in orc.table]
+    t2[-1][-1] = not t2[-1][-1]
+    variants.append((orc.objects, orc.properties, [tuple(r) for r in t2]))
+    variants.append((orc.objects[:-1] + (orc.objects[-1] + '_',), orc.properties, orc.table))
+    variants.append((orc.objects, orc.properties[:-1] + (orc.properties[-1] + '_',), orc.table))
+    if orc.n > 1:
+        variants.append((orc.objects[::-1], orc.properties, orc.table[::-1]))
+    if orc.m > 1:
+        variants.append((orc.objects, orc.properties[::-1], [r[::-1] for r in orc.table]))
+    for v in variants:
+        other = concepts.Context(*v)
+        if (v[0], v[1], list(v[2])) != (trip[0], trip[1], list(trip[2])) and (other == ctx or not (other != ctx)):
+            fails.append(f'contexts with different triples compare equal: {v!r}')
+    if ctx == trip or not (ctx != trip):
+        pass   # comparison with non-contexts is not specified
+    return fails
+
+
 def make(concepts, case):
     """(context, oracle) for a replay case with objects/properties/table"""
     ctx = concepts.Context(case['objects'], case['properties'], [tuple(r) for r in case['table']])
